@@ -662,7 +662,7 @@ func c01GenScript(rng *Rng, nWatch int, allowKnown bool) (script []string, known
 }
 
 func runC01(r *Run) {
-	r.Rule = "one REAL resourceInformer per case, driven through the verifsched yield points: the harness plays the callback thread (W1 cache section, W2 hand-over), snapshot readers tagged sync/foreign (S1 copy, S2 reset) and the unlock E in a generated interleaving, plus probes that try a step the model says is blocked by eventBufLock (unlock or hand-over while a reader is between copy and reset; unlock in the middle of the hand-over). Watch histories over <=3 objects (create, modify with changed/identical projection, delete, re-create, re-delivered Added), event-type subsets, jqFilter on/off, keepFullObjectsInMemory on/off. Non-trivial: >=2 watch events fire and the schedule interleaves a reader or the unlock between two watch steps. distinct = distinct op-line sequences. Monitor level: one REAL monitor with a namespace.labelSelector binding on the fake cluster; EnableKubeEventCb is interleaved at its yield points with namespace-added callbacks triggered by creating namespaces; afterwards an object is created in every namespace and must reach the event callback."
+	r.Rule = "one REAL resourceInformer per case, driven through the verifsched yield points: the harness plays the callback thread (W1 cache section, W2 hand-over), snapshot readers tagged sync/foreign (S1 copy, S2 reset) and the unlock E in a generated interleaving, plus probes that try a step the model says is blocked by eventBufLock (unlock or hand-over while a reader is between copy and reset; unlock in the middle of the hand-over). Watch histories over <=3 objects (create, modify with changed/identical projection, delete, re-create, re-delivered Added), event-type subsets, jqFilter on/off, keepFullObjectsInMemory on/off. Non-trivial: >=2 watch events fire and the schedule interleaves a reader or the unlock between two watch steps. distinct = distinct op-line sequences. Monitor level: one REAL monitor with a namespace.labelSelector binding on the fake cluster; EnableKubeEventCb is interleaved at its yield points with namespace-added callbacks triggered by creating namespaces; afterwards an object is created in every namespace and must reach the event callback. Operator level (exploration, uncontrolled scheduling): a whole ShellOperator on the fake cluster with one real bash hook (group / queue / jqFilter / event-type / failing-Synchronization variants); the cluster changes before start, while each Synchronization attempt is running and afterwards; oracles on the binding-context files the hook received."
 	all := []string{"a", "m", "d"}
 	// corpus: the proved witness schedules (Props/C01.lean), adapted to the repaired step alphabet
 	r.One(0, func(c *Case, rng *Rng) {
@@ -715,6 +715,7 @@ func runC01(r *Run) {
 		}
 	})
 	runC01Monitor(r)
+	runC01Operator(r)
 	// the recorded finding class, explored separately (expected to fail the oracle)
 	r.Cases(900000, r.N(20, 200), 0, func(c *Case, rng *Rng) {
 		watch := c01GenWatch(rng, rng.Range(1, 5))
